@@ -8,6 +8,7 @@ import (
 	"os"
 	"path"
 	"path/filepath"
+	"sort"
 	"strconv"
 	"strings"
 
@@ -109,6 +110,9 @@ func expandFilenames(globs []string) ([]string, error) {
 	for filename := range uniqFilenames {
 		filenames = append(filenames, filename)
 	}
+	// Map iteration order is random; sort so that the order in which schema
+	// and operation files are read (and thus the output) is deterministic.
+	sort.Strings(filenames)
 	return filenames, nil
 }
 
